@@ -85,11 +85,7 @@ func c04(c *q.Ctx) {
 		c.FieldStore(cb, "InternalBlock.NextHash", pre, "p1.Blockid", "parent links to the new tip")
 		// duplicate transaction / remap
 		dupTxDecision(c, cb)
-		keepTx := func(g q.Cond) bool {
-			return strings.Contains(g.Canon, "InTrunk") || (strings.Contains(g.Canon, ".Height") && strings.Contains(g.Canon, " < "))
-		}
-		c.Effect(cb, q.Eff{Spec: "Batch.Put", Arg: 0, Glob: "append(\"C\",p1.Transactions[].Txid)", Req: []q.Cond{{Canon: "p1.InTrunk", Sense: true}, {Canon: "ledger.(*Ledger).parallelCheckTx(*)#0[p1.Transactions[].Txid]", Sense: true}}, Exact: true, Keep: keepTx, Why: "a trunk block that carries an already-known transaction re-maps it to itself, whatever the old block's flag says", Rule: "K5"})
-		c.Effect(cb, q.Eff{Spec: "Batch.Put", Arg: 0, Glob: "append(\"C\",p1.Transactions[].Txid)", Req: []q.Cond{{Canon: "ledger.(*Ledger).parallelCheckTx(*)#0[p1.Transactions[].Txid]", Sense: false}}, Why: "a new transaction is recorded", Rule: "K6"})
+		confirmedRowRemap(c, cb)
 		c.Guard(cb, q.Cond{Canon: "(1 < phi{(1 + loop)|0|loop})", Sense: true}, succ, q.Opt{})
 		c.Effect(cb, q.Eff{Spec: "Batch.Delete", Arg: 0, Glob: "append(\"PB\",p1.Blockid)", Why: "pending copy removed with the confirmation", Rule: "K6"})
 	}
@@ -230,4 +226,15 @@ func ledgerMetaStaging(c *q.Ctx) {
 			c.Before(f, marshalMeta, q.ToCall("Batch.Write"), "the meta travels in the operation's batch")
 		}
 	}
+}
+
+// confirmedRowRemap (C04, C18): the confirmed-table row of a transaction names the TRUNK block that contains it: a
+// block that carries an already-known transaction re-maps the row to itself only if it is in the trunk - a side-branch
+// block that stole the row would make the snapshot walk date the write at the wrong height.
+func confirmedRowRemap(c *q.Ctx, cb *ssa.Function) {
+		keepTx := func(g q.Cond) bool {
+			return strings.Contains(g.Canon, "InTrunk") || (strings.Contains(g.Canon, ".Height") && strings.Contains(g.Canon, " < "))
+		}
+		c.Effect(cb, q.Eff{Spec: "Batch.Put", Arg: 0, Glob: "append(\"C\",p1.Transactions[].Txid)", Req: []q.Cond{{Canon: "p1.InTrunk", Sense: true}, {Canon: "ledger.(*Ledger).parallelCheckTx(*)#0[p1.Transactions[].Txid]", Sense: true}}, Exact: true, Keep: keepTx, Why: "a trunk block that carries an already-known transaction re-maps it to itself, whatever the old block's flag says", Rule: "K5"})
+		c.Effect(cb, q.Eff{Spec: "Batch.Put", Arg: 0, Glob: "append(\"C\",p1.Transactions[].Txid)", Req: []q.Cond{{Canon: "ledger.(*Ledger).parallelCheckTx(*)#0[p1.Transactions[].Txid]", Sense: false}}, Why: "a new transaction is recorded", Rule: "K6"})
 }
